@@ -54,12 +54,12 @@ func genPT(r *kit.Rand, tier kit.Tier) ptCase {
 		switch r.Weighted(6, 2, 2, 4, 6, 1) {
 		case 0:
 			if !have[key] {
-				c.Ops = append(c.Ops, ptOp{K: "ins", PID: pid, VPg: v, PPg: uint64(r.Intn(np)), Flag: r.Intn(8)})
+				c.Ops = append(c.Ops, ptOp{K: "ins", PID: pid, VPg: v, PPg: uint64(r.Intn(np)), Flag: r.Intn(16)})
 				have[key] = true
 			}
 		case 1:
 			if have[key] {
-				c.Ops = append(c.Ops, ptOp{K: "upd", PID: pid, VPg: v, PPg: uint64(r.Intn(np)), Flag: r.Intn(8)})
+				c.Ops = append(c.Ops, ptOp{K: "upd", PID: pid, VPg: v, PPg: uint64(r.Intn(np)), Flag: r.Intn(16)})
 			}
 		case 2:
 			if have[key] {
@@ -87,7 +87,7 @@ func runPT(c ptCase, withRestarts bool) (results []string, v *kit.Violation, sha
 
 	mk := func(op ptOp) vm.Page {
 		return vm.Page{
-			PID: vm.PID(op.PID), VAddr: op.VPg * ps, PAddr: op.PPg * ps, PageSize: ps, Valid: true,
+			PID: vm.PID(op.PID), VAddr: op.VPg * ps, PAddr: op.PPg * ps, PageSize: ps, Valid: op.Flag&8 == 0,
 			DeviceID: uint64(op.Flag), Unified: op.Flag&1 == 1, IsMigrating: op.Flag&2 == 2, IsPinned: op.Flag&4 == 4,
 		}
 	}
